@@ -2963,6 +2963,7 @@ impl<R> Archetypes<R> where R: Registry {
             old(seq).yielded().len() == 0,
         ensures
             r is Ok ==> r->Ok_0.wf() && vx_tables_wf(r->Ok_0@),
+            r is Ok ==> vx_single_table(r->Ok_0@) && forall|k: archetype::IdentifierRef<R>| r->Ok_0@.dom().contains(k) ==> (#[trigger] r->Ok_0@[k]).key() == k,
             r is Ok ==> forall|j: int| 0 <= j < final(seq).yielded().len() ==> r->Ok_0@.dom().contains((#[trigger] final(seq).yielded()[j]).key()) && r->Ok_0@[final(seq).yielded()[j].key()] == final(seq).yielded()[j],
             r is Ok ==> forall|k: archetype::IdentifierRef<R>| r->Ok_0@.dom().contains(k) ==> (exists|j: int| 0 <= j < final(seq).yielded().len() && (#[trigger] final(seq).yielded()[j]).key() == k),
             r is Ok ==> forall|a: int, b: int| 0 <= a < b < final(seq).yielded().len() ==> vx_key_bits((#[trigger] final(seq).yielded()[a]).key()) != vx_key_bits((#[trigger] final(seq).yielded()[b]).key()),
@@ -3006,6 +3007,7 @@ proof {
                     }
 
                 }
+proof { archetypes.lemma_single_table(); }
                 Ok(archetypes)
             
     }
